@@ -2,13 +2,125 @@
 From Coq Require Import String.
 From Coq Require Import ZArith List Bool Lia.
 From QF Require Import Base.Bytes Session.Types Session.Model Session.Spec Session.C01Proofs Session.FrameProofs Session.TraceProofs
-  Session.RecoveryProofs Session.MonoProofs.
+  Session.RecoveryProofs Session.MonoProofs Session.NextStateProofs.
 Import ListNotations.
 Open Scope list_scope.
 Open Scope Z_scope.
 
 Lemma pending_shape st : sh_is_pending (shape_of st) = true -> exists i, st = SPending i.
 Proof. destruct st; cbn; intros H; try discriminate. eexists; reflexivity. Qed.
+
+(* ---------- C20: the second peer timeout (nothing heard since the TestRequest) ---------- *)
+(* With the drain before the notification (repair of F17) the frames still buffered at the timeout are handled first, in
+   the state the session is in.  Invariant through that drain: the session is either still connected and logged on (or
+   waiting for the peer's Logout), or it has been disconnected WITH the logout notification and the close. *)
+Definition LQ (x : sess) : Prop :=
+  (is_connected (s_st x) = true /\ (is_logged_on (s_st x) = true \/ s_st x = SLogout))
+  \/ (is_connected (s_st x) = false /\ In CbOnLogout (s_cbs x) /\ s_closed x = true).
+
+Lemma same_boundary s s1 : Boundary s -> Same s s1 -> Boundary s1.
+Proof.
+  intros [B1 B2] (S1 & S2 & S3 & _ & _ & _ & _ & S8). split; intros H; rewrite S8 in H.
+  - rewrite S1, S2. apply B1; exact H.
+  - rewrite S1, S2, S3. apply B2; exact H.
+Qed.
+
+(* disconnecting a connected, logged-on (or logging-out) session whose channel is open notifies and closes *)
+Lemma disconnect_now_notifies x : s_out_open x = true -> (is_logged_on (s_st x) = true \/ s_st x = SLogout) ->
+  In CbOnLogout (s_cbs (disconnect_now x)) /\ s_closed (disconnect_now x) = true.
+Proof.
+  intros Ho Hl. unfold disconnect_now. cbv zeta.
+  assert (Hd : is_logged_on (s_st x) || match s_st x with SLogout => true | SLogon => initiator x | _ => false end = true).
+  { destruct Hl as [Hl | Hl]; rewrite Hl; [reflexivity | apply orb_true_r]. }
+  rewrite Hd.
+  set (s1 := log_cb x CbOnLogout).
+  assert (H2 : forall y, y = (if c_reset_on_disconnect (s_cfg s1) then drop_and_reset s1 else s1) ->
+                s_out_open y = true /\ In CbOnLogout (s_cbs y)).
+  { intros y ->. destruct (c_reset_on_disconnect (s_cfg s1)).
+    - split; [exact Ho | right; left; reflexivity].
+    - split; [exact Ho | left; reflexivity]. }
+  specialize (H2 _ eq_refl). revert H2.
+  generalize (if c_reset_on_disconnect (s_cfg s1) then drop_and_reset s1 else s1). intros s2 [H2o H2c].
+  rewrite H2o. cbn [s_cbs s_closed upd_chan]. split; [exact H2c | reflexivity].
+Qed.
+
+Lemma lq_leave y next : is_connected next = false -> In CbOnLogout (s_cbs y) -> s_closed y = true ->
+  LQ (upd_st (if s_pending_stop y then upd_flags y (s_sent_reset y) (s_hb y) true true else y) next).
+Proof. intros Hn H1 H2. right. destruct (s_pending_stop y); cbn; auto. Qed.
+
+Section LQDrain.
+Variable dr : sess -> sess.
+Hypothesis dr_boundary : forall x, Boundary x -> Boundary (dr x).
+Hypothesis dr_lq : forall x, Boundary x -> LQ x -> LQ (dr x).
+
+Lemma lq_set_state_with s1 next : Boundary s1 -> is_connected (s_st s1) = true ->
+  (is_logged_on (s_st s1) = true \/ s_st s1 = SLogout) -> hstate next = true -> LQ (set_state_with dr s1 next).
+Proof.
+  intros Hb Hc Hl Hn. unfold set_state_with.
+  destruct (is_connected next) eqn:En; cbn [negb].
+  - left. cbn [s_st upd_st]. split; [exact En|].
+    destruct next; cbn in En, Hn; try discriminate; [right; reflexivity | left; reflexivity | left; reflexivity].
+  - rewrite Hc, hd_unfold, Hc. cbn [andb].
+    pose proof (dr_boundary s1 Hb) as Hb0.
+    pose proof (dr_lq s1 Hb (or_introl (conj Hc Hl))) as Hq0.
+    destruct (is_connected (s_st (dr s1))) eqn:Ec0; cbn [negb].
+    + destruct Hq0 as [[_ Hl0] | [C _]]; [|rewrite C in Ec0; discriminate].
+      destruct Hb0 as [B1 _]. destruct (B1 Ec0) as [Ho0 _].
+      destruct (disconnect_now_notifies (dr s1) Ho0 Hl0) as [D1 D2].
+      apply lq_leave; assumption.
+    + destruct Hq0 as [[C _] | (_ & D1 & D2)]; [rewrite C in Ec0; discriminate|].
+      apply lq_leave; assumption.
+Qed.
+
+Lemma lq_incoming_with x m : Boundary x -> LQ x -> LQ (incoming_with dr x m).
+Proof.
+  intros Hb Hq. unfold incoming_with. destruct (is_connected (s_st x)) eqn:Ec; cbn [negb]; [|exact Hq].
+  destruct m as [mm|]; [|exact Hq].
+  destruct (state_fix_msg_in (s_st x) x mm) as [s1 next] eqn:E.
+  pose proof (fr_state_fix_msg_in x _ _ _ _ _ E (same_refl x)) as Hs.
+  pose proof (same_boundary x s1 Hb Hs) as Hb1.
+  assert (Hst : s_st s1 = s_st x) by (destruct Hs as (_ & _ & _ & _ & _ & _ & _ & S8); exact S8).
+  destruct Hq as [[_ Hl] | [C _]]; [|rewrite C in Ec; discriminate].
+  apply lq_set_state_with; [exact Hb1 | rewrite Hst; exact Ec | rewrite Hst; exact Hl |].
+  eapply hs_state_fix_msg_in; [exact Ec | exact E].
+Qed.
+End LQDrain.
+
+Lemma lq_drain : forall fuel x, Boundary x -> LQ x -> LQ (drain_message_in fuel x).
+Proof.
+  induction fuel as [|f IH]; intros x Hb Hq; cbn [drain_message_in]; [exact Hq|].
+  destruct (negb (s_in_open x)) eqn:Ei; [exact Hq|]. destruct (s_in_buf x) as [|m r] eqn:Eb; [exact Hq|].
+  set (x0 := upd_chan x (s_out_open x) (s_in_open x) r (s_closed x)).
+  assert (Hb0 : Boundary x0).
+  { destruct Hb as [B1 B2]. split; cbn [x0 s_st upd_chan s_out_open s_in_open s_in_buf]; intros H.
+    - apply B1; exact H.
+    - destruct (B2 H) as (_ & _ & D3). rewrite D3 in Eb. discriminate. }
+  assert (Hq0 : LQ x0) by exact Hq.
+  apply IH.
+  - apply (incoming_with_boundary (drain_message_in f) (drain_boundary f)). exact Hb0.
+  - apply (lq_incoming_with (drain_message_in f) (drain_boundary f) IH); assumption.
+Qed.
+
+Lemma dead_peer_general : forall s i, Boundary s ->
+  s_st s = SPending i -> is_logged_on i = true ->
+  let s' := step s (ETimeout PeerTimeout) in
+  s_st s' = SLatent /\ In CbOnLogout (s_cbs s') /\ s_closed s' = true.
+Proof.
+  intros s i Hb Hst Hl. unfold step, step_event.
+  set (c := clear_logs s).
+  assert (Hbc : Boundary c) by exact Hb.
+  assert (Hc : s_st c = SPending i) by exact Hst.
+  rewrite Hc. cbn [state_timeout].
+  assert (Hconn : is_connected (s_st c) = true).
+  { rewrite Hc. cbn. clear - Hl. induction i; cbn in *; try discriminate; auto. }
+  assert (Hlc : is_logged_on (s_st c) = true) by (rewrite Hc; exact Hl).
+  assert (Hq : LQ (set_state c SLatent)).
+  { unfold set_state. apply (lq_set_state_with drain (fun x Hx => drain_boundary _ x Hx) (fun x Hx Hy => lq_drain _ x Hx Hy)); [exact Hbc | exact Hconn | left; exact Hlc | reflexivity]. }
+  assert (Hs : s_st (set_state c SLatent) = SLatent).
+  { unfold set_state, set_state_with. cbn [is_connected negb]. reflexivity. }
+  split; [exact Hs|].
+  destruct Hq as [[C _] | (_ & D1 & D2)]; [rewrite Hs in C; discriminate|]. split; assumption.
+Qed.
 
 Lemma c20_event_dead_peer : forall c i s e, Boundary s ->
   free_of [2004] (c20_event c i (obs_of s) e (obs_of (step s e))) = true.
@@ -21,9 +133,7 @@ Proof.
   destruct (sh_is_pending (shape_of (s_st s))) eqn:Ep; [|free_rest].
   destruct (pending_shape _ Ep) as [j Hst].
   assert (Hlj : is_logged_on j = true) by (rewrite Hst in El; exact El).
-  assert (Ho : s_out_open s = true).
-  { destruct Hb as [B1 _]. exact (proj1 (B1 (logged_on_connected _ El))). }
-  destruct (dead_peer_general s j Hst Hlj Ho) as (D1 & D2 & D3).
+  destruct (dead_peer_general s j Hb Hst Hlj) as (D1 & D2 & D3).
   change (ob_st (obs_of (step s (ETimeout PeerTimeout)))) with (shape_of (s_st (step s (ETimeout PeerTimeout)))).
   change (ob_cbs (obs_of (step s (ETimeout PeerTimeout)))) with (rev (s_cbs (step s (ETimeout PeerTimeout)))).
   change (ob_closed (obs_of (step s (ETimeout PeerTimeout)))) with (s_closed (step s (ETimeout PeerTimeout))).
